@@ -377,13 +377,34 @@ def c06Total (cfg : Cfg) (idx : Nat) (fl : List Bool) (o : Obs) : Verdict :=
   if o.total = expectedTotal cfg fl then .ok
   else .fail "total-is-sum" [V.ofNat idx, .n o.total, .n (expectedTotal cfg fl)]
 
-def specC06Go (cfg : Cfg) (idx : Nat) (fl : List Bool) : List (Op × Obs) → Verdict
+/-! "the smoothed number of outstanding requests" is THIS balancer's: nothing but the balancer's own samples
+    moves its smoothed load.  Judged on the `_AdjustAperture` records of the history alone, in the order of the
+    calls: the value the Ema held before the update of a record (`prev`; `none`: it held no sample yet) is the
+    value the update of the balancer's previous record left (`avg` of that record; before the first record:
+    nothing).  An Ema that something else has updated in between — another balancer of the process sampling
+    into the same object — breaks the chain: the balancer then grows, or is kept from shrinking, on a load
+    that is not its own. -/
+
+/-- the chain over the records of one operation, `held` what the balancer's previous record left -/
+def c06Own (idx : Nat) : Option Rat → List AdjRec → Verdict
+  | _, [] => .ok
+  | held, r :: rs =>
+    if r.prev = held then c06Own idx (some r.avg) rs
+    else .fail "smoothed-load-not-continued" [V.ofNat idx, encOptRat r.prev, encOptRat held]
+
+/-- what the last of the records left (`held` if there is none) -/
+def heldAfter : Option Rat → List AdjRec → Option Rat
+  | held, [] => held
+  | _, r :: rs => heldAfter (some r.avg) rs
+
+def specC06Go (cfg : Cfg) (idx : Nat) (fl : List Bool) (held : Option Rat) : List (Op × Obs) → Verdict
   | [] => .ok
   | (op, o) :: rest =>
     let fl' := flagsAfter fl op o
-    (c06At cfg idx o).and (fun _ => (c06Total cfg idx fl' o).and (fun _ => specC06Go cfg (idx + 1) fl' rest))
+    (c06At cfg idx o).and (fun _ => (c06Own idx held o.adj).and (fun _ => (c06Total cfg idx fl' o).and
+      (fun _ => specC06Go cfg (idx + 1) fl' (heldAfter held o.adj) rest)))
 
-def specC06 (cfg : Cfg) (h : List (Op × Obs)) : Verdict := specC06Go cfg 0 [] h
+def specC06 (cfg : Cfg) (h : List (Op × Obs)) : Verdict := specC06Go cfg 0 [] none h
 
 /-! ### C12, balancer hop: the gate in front of the open result
 
